@@ -12,7 +12,7 @@ def run(ctx):
     designs = [("design add-path", dict(base, MaxDepth=99), ro.PFX2)]
     # the same path on two prefixes shares one identifier; released twice; then a new path must still get an identifier
     # identifier sensitivity: every ordered pair of d0 and its single-attribute variants on one prefix
-    dn = {"d0", "dSrc", "dId", "dLp", "dMed", "dAsp", "dComm", "dAggr", "dOid", "dOid2", "dCl"}
+    dn = {"d0", "dSrc", "dId", "dLp", "dMed", "dAsp", "dComm", "dAggr", "dOtc", "dUnk", "dOid", "dOid2", "dCl"}
     runs = [("gen add-path sharing", base, ro.PFX2),
             ("gen identifier sensitivity", dict(base, Names=dn, MaxDepth=4, MaxPaths=2), ro.PFX1)]
     sims = [("sim", dict(base, Names={"e1", "e2", "e3", "i1", "i2", "st", "ot"}, Pols={"accept", "setmed", "prep"}, MaxPaths=4),
@@ -27,5 +27,9 @@ def run(ctx):
     def nt(b):
         acts = [s["a"] for s in b]
         return "RemovePath" in acts and acts.index("RemovePath") < len(acts) - 1
-    ro.ribout_runs(ctx, designs, runs, sims, ("v4o8", "v6o60") if not big else ("v4o0", "v4o28", "v6o30", "v6o124"), nt,
-                   60000 if big else 5000)
+    behs = ro.ribout_runs(ctx, designs, runs, sims, ("v4o8", "v6o60") if not big else ("v4o0", "v4o28", "v6o30", "v6o124"), nt,
+                          60000 if big else 5000)
+    # the same histories on sessions whose identifier allocation counter starts 1..3 steps before it wraps (hook
+    # AdjRIBOut.VerifSetLastPathID): allocation must keep working across the wrap while only a handful of identifiers is in use
+    for off in ((1, 3) if not big else (0, 1, 2, 3, 5)):
+        ctx.replay("ribout", behs, params={"emb": "v4o8", "idstart": 2**32 - 1 - off}, nontrivial=nt, per_timeout=8)
